@@ -1,0 +1,15 @@
+//go:build !verif
+
+// Package verifhook holds instrumentation points used by the external verification harness.
+// Without the "verif" build tag every function is an empty stub that the compiler inlines away.
+package verifhook
+
+const Enabled = false
+
+func Point(name string) {}
+
+func BeforeWrite(name, path string, data []byte) {}
+
+func AfterWrite(name, path string) {}
+
+func JoinRecv(side int, closed bool) {}
